@@ -357,13 +357,16 @@ def run_check(pid, tier, modname, stub_modules, level_text, assumptions, bounds,
         print(f'VIOLATION property={pid} replay={path}')
     if confirmed:
         exit_code = EXIT_VIOLATION
-    elif inconclusive or harness_errors or tv_mismatch:
+    elif inconclusive or harness_errors or tv_mismatch or escapes:
+        # an escape = the code left the symbolic domain on some path: that path was not decided
         exit_code = EXIT_INCONCLUSIVE
 
     for h in harness_errors:
         print('HARNESS-ERROR:', h)
     for s_ in inconclusive[:20]:
         print('INCONCLUSIVE:', s_[:600])
+    for s_ in escapes[:10]:
+        print('INCONCLUSIVE: escape:', s_[:400])
     for s_ in tv_mismatch[:10]:
         print('TRANSLATOR-MISMATCH:', s_)
 
